@@ -572,6 +572,56 @@ fn c14_deep() -> R {
     Ok(())
 }
 
+/// identity and equivalence across encode -> decode (every public route) over unusual leaf values: the re-decoded copy
+/// is identical and equivalent to the original, its obscured variants are equivalent but not identical
+fn c14_decoded_values() -> R {
+    let vals: Vec<(&str, CBOR)> = vec![
+        ("text", "hello".into()), ("u64 max", u64::MAX.into()), ("negative", (-300i16).into()), ("float", 1.5f64.into()), ("reducible float", 42.0f64.into()), ("nan", f64::NAN.into()),
+        ("bytes", CBOR::to_byte_string([1u8, 2, 3])), ("bytes that are one encoded item", CBOR::to_byte_string([0x18u8, 0x2a])), ("32 bytes", CBOR::to_byte_string([9u8; 32])),
+        ("null", CBOR::null()), ("false", false.into()), ("empty array", Vec::<u8>::new().into()), ("empty map", Map::new().into()),
+        ("tagged 24 over bytes", CBOR::to_tagged_value(24u64, CBOR::to_byte_string([0x61u8, 0x78]))), ("tagged 24 over text", CBOR::to_tagged_value(24u64, "x")),
+        ("tagged 201", CBOR::to_tagged_value(201u64, "x")), ("tagged 201 over tagged 24", CBOR::to_tagged_value(201u64, CBOR::to_tagged_value(24u64, 5u8))),
+        ("tagged 200 that is no envelope", CBOR::to_tagged_value(200u64, "x")), ("CBOR of an envelope", Envelope::new("inner").add_assertion("p", "o").to_cbor()),
+        ("tagged 40000 (looks like a known value image)", CBOR::to_tagged_value(40000u64, 5u8)), ("date", dcbor::Date::from_timestamp(0.5).into()), ("tagged 100", CBOR::to_tagged_value(100u64, "x")),
+    ];
+    let (name, v) = &vals[choice(vals.len())];
+    rt::note(*name);
+    let leaf = Envelope::new(v.clone());
+    let e = match choice(5) {
+        0 => leaf.clone(),
+        1 => leaf.add_assertion("p1", "o1").add_assertion("p2", "o2"),
+        2 => Envelope::new("s").add_assertion(leaf.clone(), "o1"),
+        3 => Envelope::new("s").add_assertion("p", leaf.clone()).add_assertion("q", "r"),
+        _ => Envelope::new("s").add_assertion("p", leaf.wrap_envelope()),
+    };
+    op("encode -> decode");
+    let b = bytes(&e);
+    let copies: Vec<(&str, anyhow::Result<Envelope>)> = vec![
+        ("try_from_cbor_data", Envelope::try_from_cbor_data(b.clone())), ("TryFrom<CBOR>", Envelope::try_from(e.to_cbor())),
+        ("from_untagged_cbor", Envelope::from_untagged_cbor(e.untagged_cbor())), ("from_ur_string", Envelope::from_ur_string(e.ur_string())),
+    ];
+    for (route, r) in copies {
+        let d = match r { Ok(d) => d, Err(x) => return rt::viol("decode of own encoding failed", format!("{} via {}: {}", name, route, x)) };
+        ensure!(d.is_equivalent_to(&e) && e.is_equivalent_to(&d), "re-decoded copy is not equivalent to the original", "{} via {}", name, route);
+        ensure!(d.is_identical_to(&e) && e.is_identical_to(&d) && d == e, "re-decoded copy is not identical to the original", "{} via {}", name, route);
+        ensure!(d.structural_digest() == e.structural_digest(), "re-decoded copy has another structural digest", "{} via {}", name, route);
+        // an obscured variant of the copy against the original
+        for act in 0..3 {
+            op("obscure the leaf in the copy");
+            let o = obscure_by(&d, &leaf, act);
+            ensure!(o.is_equivalent_to(&e) && e.is_equivalent_to(&o), "obscured copy is not equivalent to the original", "{} via {} action {}", name, route, act);
+            ensure!(!o.is_identical_to(&e) && !e.is_identical_to(&o) && o != e, "obscured copy is identical to the original", "{} via {} action {}", name, route, act);
+            let od = must!(Envelope::try_from_cbor_data(bytes(&o)), "decode of own encoding failed");
+            ensure!(od.is_identical_to(&o) && od == o && !od.is_identical_to(&e), "identity not preserved by encode -> decode of an obscured variant", "{} via {} action {}", name, route, act);
+        }
+    }
+    Ok(())
+}
+fn obscure_by(e: &Envelope, target: &Envelope, act: usize) -> Envelope {
+    let action = match act { 0 => ObscureAction::Elide, 1 => ObscureAction::Encrypt(bc_components::SymmetricKey::from_data([3u8; 32])), _ => ObscureAction::Compress };
+    e.elide_removing_target_with_action(target, &action)
+}
+
 pub fn prop_c14() -> Prop {
     Prop {
         id: "C14",
@@ -582,6 +632,9 @@ pub fn prop_c14() -> Prop {
             Scenario { name: "deep", f: c14_deep, thorough_only: false,
                 bounds: "a leaf nested under 1, 2, 11..13, 22..26, 31 or 40 levels in 4 styles (wrappers, objects, predicates, alternating) x its four obscuration states (clear, elided, encrypted, compressed): pairwise identity / == / structural_digest, equivalence, identity across encode -> decode",
                 api: &["is_identical_to", "is_equivalent_to", "PartialEq::eq", "structural_digest", "elide_removing_target_with_action", "try_from_cbor_data"] },
+            Scenario { name: "decoded_values", f: c14_decoded_values, thorough_only: false,
+                bounds: "22 leaf values (every major type, values tagged 24 / 201 / 200 / 40000, the CBOR of an envelope) x 5 positions x 4 decode routes: the re-decoded copy is identical and equivalent to the original; the copy with that leaf obscured by each action is equivalent, not identical, and stays so over another round trip (values: catalogue, not solver-quantified)",
+                api: &["is_identical_to", "is_equivalent_to", "PartialEq::eq", "structural_digest", "try_from_cbor_data", "TryFrom<CBOR>", "from_untagged_cbor", "from_ur_string", "elide_removing_target_with_action"] },
             Scenario { name: "triples", f: c14_triples, thorough_only: false,
                 bounds: "every shape of <=5 elements x every ordered triple of the same variant set (first 6 positions quick / 8 thorough): transitivity of identity and equivalence",
                 api: &["is_equivalent_to", "is_identical_to"] },
